@@ -16,7 +16,7 @@ EXPLANATION = ('Decides the necessary structural clauses of C13 (answer equality
 TRUSTED_BASE = ['rustc nightly MIR construction and trait resolution']
 ASSUMPTIONS = []
 
-MOD = 'fx::io::rate_loader::'
+MOD = 'fx::io::'       # the rate loader and the helper modules beside it (shapes, not paths, select the functions)
 REMOTE_TRAIT = 'fx::io::remote_rate_loader::RemoteRateLoader'
 CACHE_TRAIT = 'fx::io::rates_cache::RatesCache'
 
